@@ -17,7 +17,13 @@ class CaseTimeout(BaseException):
     pass
 
 
+TIMED = {"out": False}
+
+
 def _alarm(signum, frame):
+    # raised again every second until the case is abandoned: harness code that classifies
+    # "unexpected exceptions" broadly cannot swallow a timeout for good
+    TIMED["out"] = True
     raise CaseTimeout()
 
 
@@ -78,15 +84,21 @@ def main(argv=None):
     known = [k for k in load_known(os.path.join(os.path.dirname(os.path.dirname(os.path.abspath(__file__))), "KNOWN_FINDINGS.txt"))
              if k["property"] == args.prop]
 
-    def run_case(case):
-        signal.alarm(args.case_timeout)
+    hang_result = {"violations": [("hang", "the computation did not terminate within %d s of wall time" % args.case_timeout)],
+                   "stats": {}, "sig": "hang", "nontrivial": True, "digest": "hang"}
+
+    def run_case(case, timeout=None):
+        TIMED["out"] = False
+        signal.setitimer(signal.ITIMER_REAL, timeout or args.case_timeout, 1.0)
         try:
-            return P.run(case, args.build)
+            r = P.run(case, args.build)
         except CaseTimeout:
-            return {"violations": [("hang", "the computation did not terminate within %d s of wall time" % args.case_timeout)],
-                    "stats": {}, "sig": "hang", "nontrivial": True, "digest": "hang"}
+            return dict(hang_result)
         finally:
-            signal.alarm(0)
+            signal.setitimer(signal.ITIMER_REAL, 0)
+        if TIMED["out"]:
+            return dict(hang_result)
+        return r
 
     res = {"prop": args.prop, "build": args.build, "runs": 0, "nontrivial": 0, "stats": {}, "sigs": [],
            "samples": [], "violation": None, "known_hits": [], "errors": [], "wall_s": 0.0, "digests": {}}
@@ -140,14 +152,8 @@ def main(argv=None):
             check = v[0]
 
             def fails(c):
-                signal.alarm(10)
-                try:
-                    rr = P.run(c, args.build)
-                except CaseTimeout:
-                    return False
-                finally:
-                    signal.alarm(0)
-                return any(x[0] == check for x in rr["violations"])
+                rr = run_case(c, 10)
+                return any(x[0] == check for x in rr["violations"]) and rr.get("digest") != "hang"
 
             if check == "hang":
                 small, tried = case, 0  # every candidate would cost a full timeout
